@@ -816,7 +816,7 @@ def _split_partition(df, on, nsplits):
         for col, dtype in keys.dtypes.items()
         if _is_numeric_cast_type(dtype)
     }
-    ind = partitioning_index(_hash_keys(keys), nsplits, cast_dtype=dtypes or None)
+    ind = partitioning_index(_hash_keys(keys, dtypes or None), nsplits)
     return group_split_dispatch(df, ind, nsplits, ignore_index=False)
 
 
